@@ -43,6 +43,8 @@ CONSTANTS MaxSize,     \* interval sizes 0..MaxSize
           Addrs,       \* subset of {"none", "4096"}: interval without / with an address
           Grows,       \* bytes appended to the first interval between split and join
           Lates,       \* BOOLEAN: model an annotation added to the last interval between split and join
+          AddAligns,   \* alignments a rewrite may add (to a block of a later interval) between split and join
+          OnlyTiled,   \* BOOLEAN: only layouts whose blocks are code and tile the interval (patch cases)
           NopKinds,    \* subset of {"1", "4", "u"}: nop size used by the model's Join
           VariantSet,  \* which call variants a case is run under (harness side)
           Rotate,      \* 0: all variants of the set; k: k of them, rotating with the layout
@@ -156,6 +158,14 @@ ProcOrder(bs) ==       \* stable sort by offset
   ELSE LET mx == Max({bs[i].o : i \in DOMAIN bs})
        IN  FlattenSeq([o \in 1..(mx + 1) |-> SelectSeq(bs, LAMBDA b : b.o = o - 1)])
 
+\* the order split_byte_interval itself uses: sorted(key=(offset, size != 0)),
+\* stable on the iteration order of the block set
+ProcOrderB(bs) ==
+  IF bs = <<>> THEN bs
+  ELSE LET mx == Max({bs[i].o : i \in DOMAIN bs})
+       IN  FlattenSeq([o \in 1..(mx + 1) |-> SelectSeq(bs, LAMBDA b : b.o = o - 1 /\ b.s = 0)
+                                              \o SelectSeq(bs, LAMBDA b : b.o = o - 1 /\ b.s # 0)])
+
 GroupsOf(bs) ==        \* bs in processing order
   LET F[i \in 0..Len(bs)] ==
         IF i = 0 THEN <<>>
@@ -207,7 +217,7 @@ SameState(a, b) == SameIvs(a.ivs, b.ivs) /\ Range(a.items) = Range(b.items) /\ L
 (***************************************************************************)
 SplitB(st, T) ==
   LET iv == st.ivs[1]
-      sorted == ProcOrder(iv.blocks)                  \* sorted(interval.blocks, key=offset) is stable
+      sorted == ProcOrderB(iv.blocks)                 \* sorted(interval.blocks, key=(offset, size != 0))
       groups == GroupsOf(sorted)
       rev == IF groups = <<>> THEN <<>> ELSE Front(Reverse(groups))    \* groups.reverse(); groups.pop()
       L[i \in 0..Len(rev)] ==
@@ -593,8 +603,25 @@ Pick(vs, l) ==
   IF Rotate = 0 \/ Rotate >= Len(vs) THEN vs
   ELSE LET h == l.n + l.init + Sum([i \in DOMAIN l.blocks |-> (i + 1) * (l.blocks[i].o + 2 * l.blocks[i].s + l.blocks[i].a)])
        IN  [i \in 1..Rotate |-> vs[((h + i) % Len(vs)) + 1]]
+\* a patch with `.align n` after `pre` one-byte instructions, inserted at offset
+\* `off` of the second block, into a module (x86-64, ELF / PE) whose alignment
+\* table is absent / empty / has an entry for the first block
+Tiled(l) ==
+  /\ Len(l.blocks) = 3 /\ l.init = l.n /\ l.addr # -1 /\ l.sx = <<>> /\ l.items = <<>>
+  /\ \A i \in 1..3 : l.blocks[i].k = "c" /\ l.blocks[i].s >= 1 /\ l.blocks[i].a = 0
+  /\ l.blocks[1].o = 0 /\ l.blocks[2].o = l.blocks[1].s /\ l.blocks[3].o = l.blocks[2].o + l.blocks[2].s
+  /\ l.blocks[3].o + l.blocks[3].s = l.n
+AlPatchVariants(l) ==
+  LET fmts == <<"elf", "pe">>
+      tabs == <<"absent", "empty", "entries">>
+      ns == <<4, 8, 16>>
+  IN  FlattenSeq([f \in 1..2 |-> FlattenSeq([tb \in 1..3 |-> FlattenSeq([n \in 1..3 |->
+        FlattenSeq([o \in 1..(l.blocks[2].s + 1) |-> [pr \in 1..2 |->
+           [op |-> "alpatch", mod |-> "x64", fmt |-> fmts[f], altab |-> tabs[tb], n |-> ns[n],
+            off |-> o - 1, pre |-> pr - 1]]])])])])
 Variants(l) ==
-  IF VariantSet = "apply" THEN (IF l.addr = -1 THEN <<>> ELSE Pick(ApplyVariants, l))
+  IF VariantSet = "alpatch" THEN (IF Tiled(l) THEN AlPatchVariants(l) ELSE <<>>)
+  ELSE IF VariantSet = "apply" THEN (IF l.addr = -1 THEN <<>> ELSE Pick(ApplyVariants, l))
   ELSE Pick(SjVariants, l)
 
 CaseOf(l) == [n |-> l.n, init |-> l.init, addr |-> l.addr, blocks |-> l.blocks, sx |-> l.sx,
@@ -603,13 +630,19 @@ CaseOf(l) == [n |-> l.n, init |-> l.init, addr |-> l.addr, blocks |-> l.blocks, 
 (***************************************************************************)
 (* The model                                                               *)
 (***************************************************************************)
-VARIABLES lay, phase, cur, mid, nopk, exc
-vars == <<lay, phase, cur, mid, nopk, exc>>
+VARIABLES lay, phase, cur, mid, nopk, exc,
+          added,   \* id of the block a rewrite gave an alignment between split and join (0: none)
+          priv     \* the alignment table handed to split / join is a private empty dict, not the
+                   \* module's table (prepare_for_rewriting: ELF module without an alignment table)
+vars == <<lay, phase, cur, mid, nopk, exc, added, priv>>
 
 Init ==
   /\ \E n \in 0..MaxSize : \E i \in InitSet(n) : \E ad \in Addrs : \E q \in GeoSeqs(n) :
        \E kd \in KindSeqs(Len(q)) : \E al \in AlignSeqs(Len(q)) : \E its \in ItemSets(n) :
           lay = MkLayout(n, i, IF ad = "none" THEN -1 ELSE 4096, q, kd, al, its)
+  /\ OnlyTiled => Tiled(lay)
+  /\ added = 0
+  /\ priv = FALSE
   /\ phase = "init"
   /\ cur = StateOf(lay)
   /\ mid = cur
@@ -621,7 +654,8 @@ Split ==
   /\ cur' = SplitB(cur, DefaultTables)
   /\ mid' = cur'
   /\ phase' = "split"
-  /\ UNCHANGED <<lay, nopk, exc>>
+  /\ priv' \in (IF AddAligns # {} /\ cur.al = <<>> THEN BOOLEAN ELSE {FALSE})
+  /\ UNCHANGED <<lay, nopk, exc, added>>
 
 \* a rewrite makes the first interval longer (bytes outside blocks at its end)
 Grow(g) ==
@@ -631,7 +665,7 @@ Grow(g) ==
   /\ cur' = [cur EXCEPT !.ivs[1].by = @ \o [i \in 1..g |-> 95 + i], !.ivs[1].size = @ + g, !.ivs[1].init = @ + g]
   /\ mid' = cur'
   /\ phase' = "grown"
-  /\ UNCHANGED <<lay, nopk, exc>>
+  /\ UNCHANGED <<lay, nopk, exc, added, priv>>
 
 \* a rewrite annotates the last interval
 Annotate ==
@@ -642,17 +676,39 @@ Annotate ==
                                                d |-> 0, v |-> "late"])]
   /\ mid' = cur'
   /\ phase' = "grown"
-  /\ UNCHANGED <<lay, nopk, exc>>
+  /\ UNCHANGED <<lay, nopk, exc, added, priv>>
+
+\* a rewrite adds an alignment requirement (a patch with `.align`, whose block
+\* insert() records in the module's alignment table) to a block of a later
+\* interval that has none
+AddAlignment(j, i, a) ==
+  /\ phase \in {"split", "grown"}
+  /\ added = 0
+  /\ j \in 2..Len(cur.ivs) /\ i \in DOMAIN cur.ivs[j].blocks
+  /\ AlignOf(cur, cur.ivs[j].blocks[i].id) = 0
+  /\ cur' = [cur EXCEPT !.al = Append(@, [b |-> cur.ivs[j].blocks[i].id, a |-> a])]
+  /\ mid' = cur'
+  /\ added' = cur.ivs[j].blocks[i].id
+  /\ phase' = "grown"
+  /\ UNCHANGED <<lay, nopk, exc, priv>>
+
+\* what join_byte_intervals is given as `alignment`
+Seen(st) == IF priv THEN [st EXCEPT !.al = <<>>] ELSE st
 
 Join(kind) ==
   /\ phase \in {"split", "grown"}
-  /\ LET r == JoinB(cur, NopBytes(kind), DefaultTables)
-     IN  cur' = r.st /\ exc' = r.exc
+  /\ LET r == JoinB(Seen(cur), NopBytes(kind), DefaultTables)
+     IN  cur' = [r.st EXCEPT !.al = cur.al] /\ exc' = r.exc
   /\ nopk' = kind
   /\ phase' = IF phase = "split" THEN "joined" ELSE "joined_grown"
-  /\ UNCHANGED <<lay, mid>>
+  /\ UNCHANGED <<lay, mid, added, priv>>
 
-Next == Split \/ (\E g \in Grows : Grow(g)) \/ Annotate \/ (\E k \in NopKinds : Join(k))
+Next == \/ Split
+        \/ \E g \in Grows : Grow(g)
+        \/ Annotate
+        \/ \E a \in AddAligns : \E j \in 1..(MaxBlocks + 1) : \E i \in 1..MaxBlocks :
+              IF j <= Len(cur.ivs) /\ i <= Len(cur.ivs[j].blocks) THEN AddAlignment(j, i, a) ELSE FALSE
+        \/ \E k \in NopKinds : Join(k)
 Spec == Init /\ [][Next]_vars
 
 (***************************************************************************)
@@ -663,15 +719,23 @@ Pre == StateOf(lay)
 InvSplit ==
   phase = "split" =>
     /\ C10_SplitPreserves(Pre, cur, DefaultTables)
-    /\ SameState(cur, SplitSpec(Pre, ProcOrder(Pre.ivs[1].blocks), DefaultTables))
+    /\ SameState(cur, SplitSpec(Pre, ProcOrderB(Pre.ivs[1].blocks), DefaultTables))
 
 InvJoin ==
   phase \in {"joined", "joined_grown"} =>
     LET nop == NopBytes(nopk) IN
     /\ exc \in {"", "PaddingError"}
-    /\ PaddingLegal(mid, cur, cur.ivs[1].id, exc, nop, DefaultTables)
+    /\ PaddingLegal(Seen(mid), cur, cur.ivs[1].id, exc, nop, DefaultTables)
+    \* a requirement added by the rewrite holds after the join when it is the only one
+    \* of its interval - unless the join was handed the private dict (KF-C10-2: the
+    \* entry in the module's table is then ignored)
+    /\ (exc = "" /\ added # 0 /\ ~priv
+           /\ \E j \in DOMAIN mid.ivs : AlignedBlocks(mid, mid.ivs[j]) = {added})
+         => (Base(cur.ivs[1]) + PosOf(cur.ivs[1], added)) % AlignOf(mid, added) = 0
     /\ (phase = "joined" /\ Invertible(Pre)) => (exc = "" /\ C10_JoinInverts(Pre, cur))
-    /\ (exc = "" /\ AlignConsistent(Pre)) => (C10_AlignmentHolds(Pre, cur) \/ KF_C10_1(Pre, cur))
+    \* requirements that held before (those of the layout and the one the rewrite added)
+    /\ LET PreA == [Pre EXCEPT !.al = mid.al]
+       IN  (exc = "" /\ ~priv /\ AlignConsistent(PreA)) => (C10_AlignmentHolds(PreA, cur) \/ KF_C10_1(PreA, cur))
 
 EmitCase == (Emit /\ phase = "init") => PrintT("CASE " \o ToJson(CaseOf(lay)))
 
